@@ -120,7 +120,11 @@ def finish(pid, tier, engines, t0, level, assumptions, seed, extra_cov=None):
         print("KNOWN-FINDING: property=%s %s (%s; %d occurrence(s) in engine %s)" % (
             pid, v["key"], kn[v["key"]], v["count"], name))
     rc = 0
+    seen_keys = set()
     for name, v in unlisted:
+        if v["key"] in seen_keys:
+            continue
+        seen_keys.add(v["key"])
         h = hashlib.sha1(v["key"].encode()).hexdigest()[:10]
         path = os.path.join(REPLAYS, "%s-%s.json" % (pid, h))
         with open(path, "w") as f:
@@ -158,7 +162,7 @@ def finish(pid, tier, engines, t0, level, assumptions, seed, extra_cov=None):
         "coverage": cov,
         "assumptions": assumptions,
         "wall_s": round(time.time() - t0, 3),
-        "violations": len(unlisted),
+        "violations": len(set(v["key"] for _, v in unlisted)),
     }
     with open(os.path.join(EVID, "%s.json" % pid), "w") as f:
         json.dump(ev, f, indent=1)
